@@ -3,7 +3,7 @@ from fractions import Fraction as Fr
 from collections import Counter, defaultdict
 from .common import *
 
-LEVEL_TEXT = ("Coq theorems (C18/Props.v): the sliding and prefix accumulations of moving_average are the sums of the last min(span,i+1) / first i+1 entries (numerators and denominators alike); "
+LEVEL_TEXT = ("Coq theorems (C18/Props.v): the sliding and prefix accumulations of moving_average are the sums of the last min(span,i+1) / first i+1 entries (numerators and denominators alike), hence the textbook weighted average for every span incl. the span=1 shortcut and every explicit weight sequence, and the closed form of the 'exp' weighting; "
               "where_fin(l,p) keeps exactly the pairing groups with one evaluation per level; its result is closed (complete w.r.t. its own levels); where_fin(n=k,l,p) leaves equal-length, complete groups; "
               "'min' truncates to the minimum. Tied to the code by correspondence of the extracted model on generated Results, plus a naive recomputation oracle from the rows "
               "(consistency of the four tables, values unchanged, raw_learners averages, where/where_fin/where_best chains).")
